@@ -108,6 +108,25 @@ def make_configs(r, n):
                             'delay_ms': 3, 'delay_seed': r.randint(0, 10**6)},
                      ['--strategy', st, '-j', str(j)],
                      {'strategy': st, 'jobs': j, 'n': 'comments-%s-%d' % (st, j)}))
+    # the generator of a parallel round is slow (the task-handler thread is
+    # inside __next__ when the main thread adopts a success of the batch):
+    # tasks that carry the new input while the abort signal of the very
+    # adoption that created it is still raised
+    for k, (st, j, na, gd) in enumerate((('ddmin', 2, 24, 25),
+                                         ('ddmin', 3, 32, 15),
+                                         ('hybrid', 2, 32, 40),
+                                         ('ddmin', 4, 32, 25))):
+        text = ('(set-logic QF_LIA)\n(declare-const x Int)\n' +
+                ''.join(f'(assert (> x {i + 100}))\n' for i in range(na)) +
+                '(check-sat)\n')
+        keep = [str(100 + i) for i in range(na) if i % 4 == 0]
+        cfgs.append((text, {'mode': 'contains',
+                            'markers': ['check-sat'] + keep,
+                            'delay_ms': 20, 'delay_seed': r.randint(0, 10**6)},
+                     ['--strategy', st, '-j', str(j), '--disable-all',
+                      '--erase-node'],
+                     {'strategy': st, 'jobs': j, 'n': f'slowgen-{k}',
+                      'env': {'VERIF_GEN_DELAY_MS': str(gd)}}))
     # a transient fault (ENOSPC) at the n-th low-level write of the output
     # renderer: ddSMT either stops (status 1, chain intact) or goes on - then
     # the chain must go on from what was written
@@ -160,6 +179,30 @@ def sched_configs(r, tier):
                                            'choices': list(choices),
                                            'tail': tail}}))
     return out
+
+
+REPLAY = {'quick': [('ab', 2, 70)],
+          'thorough': [('ab', 2, None), ('a_b', 2, None), ('abc', 2, 500),
+                       ('ab_c', 3, 400)]}
+
+
+def replay_report(rep, rr):
+    """A run that leaves the behaviour it was generated from is reported in
+    the evidence; it is a violation only if the run itself breaks the
+    property (judged like every other run) - another schedule is not."""
+    div = [(it, d, b, diffs) for it, d, b, diffs in rr if diffs]
+    rep.cov['replay_divergences'] = len(div)
+    for it, d, b, diffs in div[:3]:
+        rep.sample({'replay_divergence': diffs[:4], 'system': d['name'],
+                    'behaviour_chain': b['chain']})
+    for it, d, b, diffs in rr[:1]:
+        rep.sample({'replayed_behaviour': {
+            'system': d['name'], 'input': d['text'], 'options': it.opts,
+            'sweeps': [(s['pass'], s['skip'], s['base'],
+                        [(c['cand'], c['v'], c['ab']) for c in s['comps']])
+                       for s in b['sweeps']],
+            'chain': b['chain'], 'controlled_releases':
+            it.meta.get('controlled')}})
 
 
 def judge(rep, items):
@@ -252,6 +295,17 @@ def main():
         if sum(1 for e in it.run.events if e['ev'] == 'recv' and e.get('ok'))
         > sum(1 for e in it.run.events if e['ev'] == 'write'))
     S.cleanup(sitems)
+    # specification -> code: behaviours generated by TLC from HierSched.tla
+    # over the reduction system extracted from the real passes (all verdict
+    # functions x all dictatable completion orders) replayed into the real
+    # pool; every run is judged like the others, and compared step by step
+    # with the behaviour it was generated from
+    import hreplay
+    rr = hreplay.replay_all(rep, S, REPLAY[a.tier], common.seed() + 55,
+                            'c05r')
+    judge(rep, [x[0] for x in rr])
+    replay_report(rep, rr)
+    S.cleanup([x[0] for x in rr])
     for it in items[:4]:
         rep.sample({'config': S.describe(it),
                     'writes': [e['toks'] for e in it.run.events
